@@ -558,3 +558,36 @@ Lemma merge_data_cases data data_id :
     | None, d => Ok d
     end.
 Proof. destruct data, data_id; reflexivity. Qed.
+
+(* ---- lookups by data object, in terms of data equality -------------------- *)
+(* With default data_ids (hash of the data object, no explicit data_id on any
+   node) and a hash that separates the equality classes present in the tree,
+   the nodes carrying calc_data_id(o) = hash(o) are the nodes whose data
+   object equals o. *)
+Definition default_ids (f : forest) : Prop :=
+  forall t, In t (pre_f f) -> rdid t = DInt (i_hash (rinfo t)).
+Definition hash_separates (f : forest) (o_hash o_eqc : Z) : Prop :=
+  forall t, In t (pre_f f) -> (i_hash (rinfo t) = o_hash <-> i_eqc (rinfo t) = o_eqc).
+Definition data_equals (o_eqc : Z) (t : rt) : bool := Z.eqb (i_eqc (rinfo t)) o_eqc.
+
+Lemma all_by_did_is_data_equality f o_hash o_eqc :
+  default_ids f -> hash_separates f o_hash o_eqc ->
+  all_by_did f (DInt o_hash) = map rid (filter (data_equals o_eqc) (pre_f f)).
+Proof.
+  intros Hd Hs. unfold all_by_did. f_equal. apply filter_ext_in'.
+  intros t Ht. unfold did_is, data_equals. rewrite (Hd t Ht). cbn [did_eqb].
+  destruct (Z.eqb (i_hash (rinfo t)) o_hash) eqn:E1, (Z.eqb (i_eqc (rinfo t)) o_eqc) eqn:E2; try reflexivity.
+  - apply Z.eqb_eq in E1. apply (Hs t Ht) in E1. apply Z.eqb_neq in E2. congruence.
+  - apply Z.eqb_eq in E2. apply (Hs t Ht) in E2. apply Z.eqb_neq in E1. congruence.
+Qed.
+
+Lemma filter_did_is_data_equality f s b o_hash o_eqc :
+  default_ids f -> hash_separates f o_hash o_eqc -> incl (branch f s b) (pre_f f) ->
+  filter (did_is (DInt o_hash)) (branch f s b) = filter (data_equals o_eqc) (branch f s b).
+Proof.
+  intros Hd Hs Hi. apply filter_ext_in'. intros t Ht. apply Hi in Ht.
+  unfold did_is, data_equals. rewrite (Hd t Ht). cbn [did_eqb].
+  destruct (Z.eqb (i_hash (rinfo t)) o_hash) eqn:E1, (Z.eqb (i_eqc (rinfo t)) o_eqc) eqn:E2; try reflexivity.
+  - apply Z.eqb_eq in E1. apply (Hs t Ht) in E1. apply Z.eqb_neq in E2. congruence.
+  - apply Z.eqb_eq in E2. apply (Hs t Ht) in E2. apply Z.eqb_neq in E1. congruence.
+Qed.
